@@ -112,30 +112,50 @@ def run_case(case):
             viols.append(violation("layout", "solve", "SHAPE", str(e), params=vname))
             break
         n = len(next(iter(init.values())))
-        for t in range(r.T):
-            sub = fr1.loc[t]
-            pos, on = [], np.ones(n, bool)
-            for s in r.states:
-                g = r.grids[s]
-                x = np.asarray(sub[s].values, dtype=np.float64)
-                j = np.abs(g[None, :].astype(np.float64) - x[:, None]).argmin(axis=1)
-                tol = 0.0 if r.kind[s] == "DiscreteGrid" else 1e-12 * (1 + np.abs(g[j]))
-                on &= np.abs(g[j] - x) <= tol
-                pos.append(j)
-            vals = np.asarray(sub["value"].values, dtype=np.float64)
-            exp = Vfull[t][tuple(pos)]
-            use = on & ~np.isnan(exp)
-            if t == 0 and not on.all():
-                viols.append(violation("value==V[state]", "simulate", "ROW", "period-0 agents are not on the grid (harness error?)", params=vname))
-            ok = e1.refmodel.close(vals, exp, 1e-12)  # infinities must agree exactly
-            cnt += int(use.sum())
-            if t > 0:
-                on_later += int(use.sum())
-            if not ok[use].all():
-                i = int(np.argwhere(use & ~ok)[0][0])
-                st = {s: float(sub[s].values[i]) for s in r.states}
-                viols.append(violation("value==V[state]", "simulate", "ROW", f"period {t} agent {i} state {st}: simulated value {vals[i]!r}, solved array entry {exp[i]!r}", params=vname, period=t, agent=i))
+        frames = [("", fr1)]
+        if vname == "default":
+            # the same call with every additional target requested (auxiliary, constraint and transition functions):
+            # the value column must still be the solved array's entry at the state reported in the same row
+            from mc.checks import c13
+
+            try:
+                fr3 = sim(params, initial_states=jinit, vf_arr_list=V, seed=7, additional_targets=c13.target_alphabet(r))
+            except Exception as e:
+                viols.append(violation("runs", "simulate", "EXC:" + type(e).__name__, "with additional targets: " + str(e)[:400], params=vname))
                 break
+            traces += 1
+            missing = [c for c in ["value", *r.states] if c not in fr3.columns]
+            if missing:
+                viols.append(violation("value==V[state]", "simulate", "ROW", f"with additional targets the panel has no column {missing}", params=vname))
+                break
+            frames.append((" [additional targets requested]", fr3))
+        for tag, frx in frames:
+          for t in range(r.T):
+              sub = frx.loc[t]
+              pos, on = [], np.ones(n, bool)
+              for s in r.states:
+                  g = r.grids[s]
+                  x = np.asarray(sub[s].values, dtype=np.float64)
+                  j = np.abs(g[None, :].astype(np.float64) - x[:, None]).argmin(axis=1)
+                  tol = 0.0 if r.kind[s] == "DiscreteGrid" else 1e-12 * (1 + np.abs(g[j]))
+                  on &= np.abs(g[j] - x) <= tol
+                  pos.append(j)
+              vals = np.asarray(sub["value"].values, dtype=np.float64)
+              exp = Vfull[t][tuple(pos)]
+              use = on & ~np.isnan(exp)
+              if t == 0 and not on.all():
+                  viols.append(violation("value==V[state]", "simulate", "ROW", "period-0 rows do not carry the on-grid initial states" + tag, params=vname))
+              ok = e1.refmodel.close(vals, exp, 1e-12)  # infinities must agree exactly
+              cnt += int(use.sum())
+              if t > 0:
+                  on_later += int(use.sum())
+              if not ok[use].all():
+                  i = int(np.argwhere(use & ~ok)[0][0])
+                  st = {s: float(sub[s].values[i]) for s in r.states}
+                  viols.append(violation("value==V[state]", "simulate", "ROW", f"period {t} agent {i} state {st}: simulated value {vals[i]!r}, solved array entry {exp[i]!r}" + tag, params=vname, period=t, agent=i))
+                  break
+          if viols:
+            break
         if viols:
             break
     return outcome(
